@@ -1581,6 +1581,12 @@ def _t9():
         r = fresh_opaque('filtered')
         subsets.append((r.t, T(args[0])))
         st.events.append((node.func.attr, args, r))
+        if node.func.attr == 'filter_for_certificate':
+            # C20: the suites kept are those whose authentication type fits THE certificate that will be presented with
+            # them (the pair under examination), not some other chain of the server
+            cur = st.env.get('cert')
+            ob(ex, st, 'C20:suites-filtered-for-the-certificate-of-the-examined-(cert,key)-pair',
+               cur is not None and len(args) >= 2 and T(args[1]) == T(cur), kind='m2')
         return [Outcome('normal', st, r)]
 
     def lemma(c):
